@@ -33,6 +33,30 @@ class SimFaultMixin:
     """Marker: exceptions raised by the injector carry .vecsim_injected = True."""
 
 
+def _reenter():
+    """A user callback (a coordinate's arithmetic, a lib function, an allocator hook) that itself evaluates vector
+    operations - under its own, properly scoped, floating-point error handling - before the outer operation goes on.
+    Legal re-entrancy: the outer call must neither notice nor leak anything."""
+    import sys
+
+    import numpy
+
+    vector = sys.modules.get("vector")
+    if vector is None:
+        return
+    ctx = getattr(_tls, "ctx", None)
+    _tls.ctx = None                      # nothing is counted or injected inside the nested calls
+    try:
+        with numpy.errstate(divide="raise", over="print", under="warn", invalid="call"):
+            w = vector.obj(x=3.0, y=4.0, z=12.0)
+            w.rho, w.phi, w.x, w.y, w.mag
+            (w + w).to_rhophieta()
+            w.dot(w)
+            w.deltaphi(w)
+    finally:
+        _tls.ctx = ctx
+
+
 def make_fault(excname, where):
     e = EXC[excname](f"injected fault at {where}")
     e.vecsim_injected = True
@@ -82,6 +106,8 @@ def _lib_hit(name):
     if pl is not None and pl[0] == ctx.lib_calls:
         ctx.fired.append(("lib", name, ctx.lib_calls, pl[1]))
         counters.fired["lib"] += 1
+        if pl[1] == "Reenter":
+            return _reenter()
         raise make_fault(pl[1], f"lib.{name} call #{ctx.lib_calls}")
 
 
@@ -95,6 +121,8 @@ def _alloc_hit(name):
     if pl is not None and pl[0] == ctx.alloc_calls:
         ctx.fired.append(("alloc", name, ctx.alloc_calls, pl[1]))
         counters.fired["alloc"] += 1
+        if pl[1] == "Reenter":
+            return _reenter()
         raise make_fault(pl[1], f"{name} call #{ctx.alloc_calls} in a backend wrapper")
 
 
@@ -241,6 +269,8 @@ def _flt_hit(opname):
     if pl is not None and pl[0] == ctx.flt_calls:
         ctx.fired.append(("flt", opname, ctx.flt_calls, pl[1]))
         counters.fired["flt"] += 1
+        if pl[1] == "Reenter":
+            return _reenter()
         raise make_fault(pl[1], f"SimFloat.{opname} call #{ctx.flt_calls}")
 
 
